@@ -204,9 +204,10 @@ func (e *env) serverStamp(d *vnet.Datagram) *vnet.TxStamp {
 // realServe passes the request through the repository's own listener.
 func (e *env) realServe(d *vnet.Datagram, fwd time.Duration) *kit.Reply {
 	s, w := e.s, e.w
+	s.Depart(d)
 	time.Sleep(fwd)
 	ex := &kit.Exch{N: len(s.Exchs), Sock: d.Sock, Theta: s.Theta, Fwd: fwd, SendAt: s.SendClock[d.Seq], CTx: s.TxStamps[d.Seq]}
-	ex.Fwd = time.Since(s.SendTrue[d.Seq])
+	ex.Fwd = time.Since(s.SendTrue[d.Seq].Add(2 * time.Microsecond))
 	reqPayload, _, _ := s.T.Unwrap(d)
 	ntp.DecodePacket(&ex.Req, reqPayload)
 	e.srvTxMode = e.x.Choose(3, "srv-txts")
